@@ -305,6 +305,7 @@ def check_attr_provenance(res, cls, init, key, rule='S4', conditional=False,
                   'self.%s is not assigned on every path through __init__' % key)
     return
   bad = []
+  depends = {}
   for a, v, st in mine:
     reads = set()
     for r in names_read(v):
@@ -313,6 +314,7 @@ def check_attr_provenance(res, cls, init, key, rule='S4', conditional=False,
       else:
         reads |= deps.get(r, set())
     if key in reads:
+      depends[id(st)] = True
       continue
     gs = structural_guards(init.node, st) or []
     gdeps = set()
@@ -323,11 +325,18 @@ def check_attr_provenance(res, cls, init, key, rule='S4', conditional=False,
         else:
           gdeps |= deps.get(r, set())
     if key in gdeps:
+      depends[id(st)] = True
       continue
     # self.x = []; followed by self.x.append(...) fed by the parameter
     if _appended_from_param(init, key, deps):
       continue
     bad.append(st)
+  # `self.x = <constant default>` followed by an assignment of self.x that
+  # does depend on the parameter (under a guard on it): default + override
+  if bad and depends and all(
+      isinstance(st.value, (ast.Constant, ast.List, ast.Tuple, ast.Dict)) and
+      not names_read(st.value) for st in bad):
+    bad = []
   if bad:
     res.violation(rule, k, init.loc(bad[0]),
                   'self.%s = %s does not depend on constructor parameter %s' % (
